@@ -10,6 +10,7 @@
 #include <pthread.h>
 #include <stdlib.h>
 #include <string.h>
+#include <sys/socket.h>
 #include <unistd.h>
 
 // ---- ledger ---------------------------------------------------------------
@@ -358,6 +359,219 @@ run_s9(void *arg)
 	vh_fini();
 }
 
+// ---- S4: REQ ctx recv || cancel || reply arriving ------------------------------
+static op S4;
+static void *
+s4_canceller(void *a)
+{
+	(void) a;
+	nng_aio_cancel(S4.aio);
+	return NULL;
+}
+static void
+run_s4(void *arg)
+{
+	int do_cancel = (int) (intptr_t) arg;
+	vh_init(0);
+	memset(&S4, 0, sizeof(S4));
+	nng_socket req;
+	nng_ctx    ctx;
+	VH_OK(nng_req0_open(&req));
+	VH_OK(nng_socket_set_ms(req, NNG_OPT_REQ_RESENDTIME, NNG_DURATION_INFINITE));
+	VH_OK(nng_ctx_open(&ctx, req));
+	int fd = vp_connect_raw(req, SP_REP, NULL);
+	if (fd < 0)
+		vs_fail("harness:setup", "raw replier");
+	nng_msg *m;
+	VH_OK(nng_msg_alloc(&m, 0));
+	VH_OK(nng_msg_append(m, "q", 1));
+	VH_OK(nng_ctx_sendmsg(ctx, m, 0));
+	vs_settle();
+	vp_rd         *rd = calloc(1, sizeof(*rd));
+	const uint8_t *p;
+	size_t         l;
+	if (vp_next_frame(fd, rd, &p, &l) != 1 || l != 5)
+		vs_fail("harness:setup", "request not on the wire");
+	uint8_t id[4];
+	memcpy(id, p, 4);
+	VH_OK(nng_aio_alloc(&S4.aio, op_cb, &S4));
+	S4.timeout   = -1;
+	S4.t_start   = vs_now();
+	S4.submitted = 1;
+	pthread_t tc;
+	vs_window(1);
+	nng_ctx_recv(ctx, S4.aio);
+	if (do_cancel)
+		pthread_create(&tc, NULL, s4_canceller, NULL);
+	vp_send(fd, id, 4, "a", 1); // the reply arrives while the cancel races
+	if (do_cancel)
+		pthread_join(tc, NULL);
+	nng_aio_wait(S4.aio);
+	vs_window(0);
+	vs_settle();
+	if (S4.ncb != 1)
+		vs_fail("C02:callback-count", "ctx recv: %d callbacks", S4.ncb);
+	static const int ok[] = { 0, NNG_ECANCELED };
+	allowed(&S4, "ctx recv", ok, 2);
+	if (S4.result == 0) {
+		nng_msg *r = nng_aio_get_msg(S4.aio);
+		if (r == NULL || nng_msg_len(r) != 1)
+			vs_fail("C02:result-without-effect", "recv 0 without the reply");
+		nng_msg_free(r);
+	}
+	vs_outcome("cancel=%d res=%d", do_cancel, S4.result);
+	free(rd);
+	nng_aio_free(S4.aio);
+	close(fd);
+	nng_ctx_close(ctx);
+	nng_socket_close(req);
+	vh_fini();
+}
+
+// ---- S7: device aio || cancel || traffic ---------------------------------------
+static op S7;
+static void *
+s7_canceller(void *a)
+{
+	(void) a;
+	nng_aio_cancel(S7.aio);
+	return NULL;
+}
+static void
+run_s7(void *arg)
+{
+	(void) arg;
+	vh_init(0);
+	memset(&S7, 0, sizeof(S7));
+	nng_socket f, b, req, rep;
+	VH_OK(nng_rep0_open_raw(&f));
+	VH_OK(nng_req0_open_raw(&b));
+	VH_OK(nng_req0_open(&req));
+	VH_OK(nng_rep0_open(&rep));
+	VH_OK(nng_listen(f, "inproc://s7f", NULL, 0));
+	VH_OK(nng_listen(rep, "inproc://s7b", NULL, 0));
+	VH_OK(nng_dial(b, "inproc://s7b", NULL, 0));
+	VH_OK(nng_dial(req, "inproc://s7f", NULL, 0));
+	VH_OK(nng_aio_alloc(&S7.aio, op_cb, &S7));
+	vs_settle();
+	S7.timeout   = -1;
+	S7.submitted = 1;
+	S7.t_start   = vs_now();
+	pthread_t tc;
+	nng_device_aio(S7.aio, f, b);
+	vs_settle();
+	(void) vh_send_nb(req, "ping", 4); // traffic in flight while we cancel
+	vs_window(1);
+	pthread_create(&tc, NULL, s7_canceller, NULL);
+	nng_aio_wait(S7.aio);
+	pthread_join(tc, NULL);
+	vs_window(0);
+	vs_settle();
+	if (S7.ncb != 1)
+		vs_fail("C02:callback-count", "device aio: %d callbacks", S7.ncb);
+	static const int ok[] = { NNG_ECANCELED, NNG_ECLOSED, 0 };
+	allowed(&S7, "device", ok, 3);
+	vs_outcome("res=%d", S7.result);
+	nng_aio_free(S7.aio);
+	nng_socket_close(req);
+	nng_socket_close(rep);
+	nng_socket_close(f);
+	nng_socket_close(b);
+	vh_fini();
+}
+
+// ---- S8: stream recv over a socketpair || cancel || peer write / close ---------
+static op S8;
+static void *
+s8_canceller(void *a)
+{
+	(void) a;
+	nng_aio_cancel(S8.aio);
+	return NULL;
+}
+static void
+run_s8(void *arg)
+{
+	int peer_action = (int) (intptr_t) arg; // 0 write, 1 close, 2 nothing
+	vh_init(0);
+	memset(&S8, 0, sizeof(S8));
+	nng_stream_listener *sl;
+	nng_aio             *acc;
+	int                  sv[2];
+	if (socketpair(AF_UNIX, SOCK_STREAM, 0, sv) != 0)
+		vs_fail("harness:setup", "socketpair");
+	VH_OK(nng_stream_listener_alloc(&sl, "socket://"));
+	VH_OK(nng_stream_listener_listen(sl));
+	VH_OK(nng_aio_alloc(&acc, NULL, NULL));
+	nng_stream_listener_accept(sl, acc);
+	VH_OK(nng_stream_listener_set_int(sl, NNG_OPT_SOCKET_FD, sv[0]));
+	nng_aio_wait(acc);
+	if (nng_aio_result(acc) != 0)
+		vs_fail("harness:setup", "stream accept: %d", nng_aio_result(acc));
+	nng_stream *st = nng_aio_get_output(acc, 0);
+	VH_OK(nng_aio_alloc(&S8.aio, op_cb, &S8));
+	static char buf[8];
+	nng_iov     iov = { .iov_buf = buf, .iov_len = sizeof(buf) };
+	nng_aio_set_iov(S8.aio, 1, &iov);
+	nng_aio_set_timeout(S8.aio, 10);
+	S8.timeout   = 10;
+	S8.t_start   = vs_now();
+	S8.submitted = 1;
+	vs_settle();
+	pthread_t tc;
+	vs_window(1);
+	nng_stream_recv(st, S8.aio);
+	pthread_create(&tc, NULL, s8_canceller, NULL);
+	if (peer_action == 0) {
+		if (write(sv[1], "xyz", 3) != 3)
+			vs_fail("harness:peer", "write");
+	} else if (peer_action == 1)
+		close(sv[1]);
+	pthread_join(tc, NULL);
+	nng_aio_wait(S8.aio);
+	vs_window(0);
+	vs_settle();
+	vs_sleep(30);
+	if (S8.ncb != 1)
+		vs_fail("C02:callback-count", "stream recv: %d callbacks", S8.ncb);
+	static const int ok[] = { 0, NNG_ECANCELED, NNG_ETIMEDOUT, NNG_ECONNSHUT,
+		NNG_ECLOSED, NNG_ECONNRESET };
+	allowed(&S8, "stream recv", ok, 6);
+	int first = S8.result;
+	if (S8.result == 0 &&
+	    (nng_aio_count(S8.aio) != 3 || memcmp(buf, "xyz", 3) != 0))
+		vs_fail("C02:result-without-effect", "stream recv 0 with %zu bytes",
+		    nng_aio_count(S8.aio));
+	if (S8.result != 0 && peer_action == 0) {
+		// the bytes must still be readable: an error means no effect
+		char b2[8];
+		S8.submitted++;
+		nng_iov iov2 = { .iov_buf = b2, .iov_len = sizeof(b2) };
+		nng_aio_set_iov(S8.aio, 1, &iov2);
+		nng_aio_set_timeout(S8.aio, 20);
+		S8.t_start = vs_now();
+		S8.timeout = 20;
+		nng_stream_recv(st, S8.aio);
+		nng_aio_wait(S8.aio);
+		if (S8.result != 0 || nng_aio_count(S8.aio) != 3 ||
+		    memcmp(b2, "xyz", 3) != 0)
+			vs_fail("C02:message-conservation",
+			    "stream recv failed (%d) and the 3 bytes are gone (second "
+			    "read: %d, %zu bytes)",
+			    S8.result, S8.result, nng_aio_count(S8.aio));
+	}
+	vs_outcome("peer=%d res=%d", peer_action, first);
+	nng_aio_free(S8.aio);
+	nng_aio_free(acc);
+	nng_stream_close(st);
+	nng_stream_free(st);
+	nng_stream_listener_close(sl);
+	nng_stream_listener_free(sl);
+	if (peer_action != 1)
+		close(sv[1]);
+	vh_fini();
+}
+
 static void
 explore(const char *name, void (*fn)(void *), void *arg, int p, int t, int sw,
     int total)
@@ -403,5 +617,11 @@ main(int argc, char **argv)
 		"S9-close-rep", "S9-close-sub" };
 	for (int i = 0; i < 4; i++)
 		explore(s9n[i], run_s9, (void *) (intptr_t) i, p, t, sw, tot);
+	explore("S4-ctxrecv-reply", run_s4, (void *) 0, p, t, sw, tot);
+	explore("S4-ctxrecv-reply-cancel", run_s4, (void *) 1, p, t, sw, tot);
+	explore("S7-device-cancel", run_s7, NULL, 1, 1, 1, 1); // teardown has ~300 points: 1 deviation
+	explore("S8-stream-write-cancel", run_s8, (void *) 0, p, t, sw, tot);
+	explore("S8-stream-close-cancel", run_s8, (void *) 1, p, t, sw, tot);
+	explore("S8-stream-idle-cancel", run_s8, (void *) 2, p, t, sw, tot);
 	return vx_finish();
 }
